@@ -57,21 +57,38 @@ def run(model, rep, tier):
                qual='StarSet.symmequivjumplist')
     rep.floor('image appends in symmequivjumplist', n, 1)
     # images come from every group operation, both states and the direction transformed by the same g
-    lp = [x for x in walk_local(sj) if isinstance(x, ast.For) and unparse(x.iter) == 'self.crys.G']
-    ok = False
-    if lp:
-        g = unparse(lp[0].target)
-        # what is appended as the image, with the locals bound once written out: both states and the direction are
-        # transformed by the loop's own g (the initial and the final state being different objects)
-        from ._common import resolve_local
-        for b in pattern.find(lp[0], '_N_l.append(((_N_gi, _N_gf), _N_gdx))'):
+    # locate: a loop that runs over the operations of the space group (directly, or zipped with per-operation data built from it)
+    from ._common import resolve_local
+
+    def over_group(it):
+        r = unparse(resolve_local(sj, it))
+        return 'self.crys.G' in r
+    lp = [x for x in walk_local(sj) if isinstance(x, ast.For) and over_group(x.iter)]
+    if not lp:
+        rep.undecided('symmequivjumplist: loop over the space-group operations not located')
+    else:
+        names = [n.id for n in ast.walk(lp[0].target) if isinstance(n, ast.Name)]
+        apps = pattern.find(lp[0], '_N_l.append(((_N_gi, _N_gf), _N_gdx))')
+        ok = False
+        why = 'no image is appended inside the loop over the group'
+        for b in apps:
             img = resolve_local(sj, b['_node'].value.args[0], depth=1)
-            for m in pattern.find(img, '((self.stateindex(_E_PSi.g(self.crys, self.chem, _N_g)), self.stateindex(_E_PSf.g(self.crys, self.chem, _N_g))), '
-                                       'self.crys.g_direc(_N_g, _N_dx))', 'expr', _N_g=g, _N_dx=dx_):
-                if m['_node'] is img and m['_E_PSi'] != m['_E_PSf']:
-                    ok = True
-    rep.ob('reversal-pairing', mod, lp[0] if lp else sj, 'symmequivjumplist: images of (initial, final, dx) under every g of crys.G', ok,
-           '' if ok else 'class is not closed under the space group', engine='flow', qual='StarSet.symmequivjumplist')
+            txt = unparse(img)
+            # verify: the direction is rotated by the loop's own operation, and the two states are images of two different states
+            g_used = [g for g in names if ('self.crys.g_direc(%s, %s)' % (g, dx_)) in txt]
+            states = [c for c in ast.walk(img) if isinstance(c, ast.Call) and unparse(c.func) == 'self.stateindex' and len(c.args) == 1]
+            if not g_used:
+                why = 'the displacement of an image is not the displacement rotated by the operation of the loop'
+                continue
+            if len(states) == 2:
+                a0, a1 = unparse(states[0].args[0]), unparse(states[1].args[0])
+                direct = [a for a in (a0, a1) if '.g(self.crys, self.chem, ' in a]
+                if a0 == a1 or any(('.g(self.crys, self.chem, %s)' % g_used[0]) not in a for a in direct):
+                    why = 'initial and final image are not the images of the two end states under the operation of the loop'
+                    continue
+            ok = True
+        rep.ob('reversal-pairing', mod, lp[0], 'symmequivjumplist: images of (initial, final, dx) under every g of crys.G', ok,
+               '' if ok else 'class is not closed under the space group: ' + why, engine='flow', qual='StarSet.symmequivjumplist')
     # ---- builders
     want_dx = {'jumpnetwork_omega1': '_N_dx = _N_PSf.dx - _N_PSi.dx', 'jumpnetwork_omega2': '_N_dx = -_N_PSi.dx'}
     for m, tmpl in want_dx.items():
@@ -100,10 +117,14 @@ def run(model, rep, tier):
         rep.ob('lock-step', mod, fn, 'StarSet.%s appends %s in one block and returns %s' % (m, names, rn), ok,
                '' if ok else 'the three parallel lists can get out of step', engine='owner', qual='StarSet.' + m)
         sp = pattern.find(fn, '_N_sp.append((self.index[_N_i], self.index[_N_f]))')
-        se = pattern.find(fn, '_N_jn.append(self.symmequivjumplist(_N_i, _N_f, _N_dx))')
-        ok = bool(sp) and bool(se) and sp[0]['_N_i'] == se[0]['_N_i'] and sp[0]['_N_f'] == se[0]['_N_f']
-        rep.ob('lock-step', mod, fn, 'StarSet.%s: star pair = (index[i], index[f]) of the jump (i, f) just classified' % m, ok,
-               '' if ok else 'star pair does not belong to the jump', engine='owner', qual='StarSet.' + m)
+        # the jump that is classified: the arguments of the symmequivjumplist call (appended directly or through a local)
+        se = [c for c in walk_local(fn) if isinstance(c, ast.Call) and unparse(c.func) == 'self.symmequivjumplist' and len(c.args) == 3]
+        if sp and len(se) == 1:
+            ok = sp[0]['_N_i'] == unparse(se[0].args[0]) and sp[0]['_N_f'] == unparse(se[0].args[1])
+            rep.ob('lock-step', mod, fn, 'StarSet.%s: star pair = (index[i], index[f]) of the jump (i, f) just classified' % m, ok,
+                   '' if ok else 'star pair does not belong to the jump', engine='owner', qual='StarSet.' + m)
+        else:
+            rep.undecided('StarSet.%s: star-pair append / symmequivjumplist call not located' % m)
         jt = pattern.find(fn, 'for _N_jt, _N_ji in enumerate(self.jumpnetwork_index):\n    _E_b')
         jt = [x for x in walk_local(fn) if isinstance(x, ast.For) and unparse(x.iter) == 'enumerate(self.jumpnetwork_index)']
         ok = bool(jt) and pattern.has(fn, '_N_l.append(_N_jt)', _N_jt=unparse(jt[0].target.elts[0]))
